@@ -9,4 +9,19 @@ EndsInRejection == LET e == hist[Len(hist)] IN e.op = "block" /\ e.res = "dup" /
 \* (state constraint of that generator: the prefix only builds state -- accepted blocks, commits, flushes)
 RejPrefix == \A i \in 1..Len(hist) : hist[i].op # "has" /\ (hist[i].res = "ok" \/ i = Depth)
 EmitRej == (Len(hist) = Depth /\ EndsInRejection) => PrintT(<<"B", ToJson(hist)>>)
+\* scripted generator: all behaviours whose calls follow Pattern (a sequence of operation names), every parameter free.
+\* Used for the restart scenario: block, commit, flush, restart, block, commit(, flush), block -- the last block may
+\* repeat an id that is only in the database (finalized before the restart).
+CONSTANT Pattern
+PatNone == <<>>
+PatRestart1 == <<"block", "commit", "flush", "restart", "block", "commit", "flush", "block">>
+PatRestart2 == <<"block", "commit", "flush", "restart", "block", "commit", "block">>     \* (an empty block is flushed inside Commit)
+FollowsPattern == \A i \in 1..Len(hist) : i <= Len(Pattern) /\ hist[i].op = Pattern[i]
+               /\ (i < Len(Pattern) => hist[i].res = "ok")
+\* the restart scenario proper: one chain; the block finalized before the restart holds "a", the one after it "b"
+RestartScenario == /\ FollowsPattern
+                   /\ \A n \in 2..N : par[n] = n - 1
+                   /\ (Len(hist) >= 1 => hist[1].l = <<"a">>)
+                   /\ (Len(hist) >= 5 => hist[5].l = <<"b">>)
+EmitPattern == (Len(hist) = Len(Pattern)) => PrintT(<<"B", ToJson(hist)>>)
 ====
